@@ -869,6 +869,10 @@ func isFieldStore(in ssa.Instruction, f *types.Var) (*ssa.Store, bool) {
 // loadsField: v is (a conversion of) a load of field f; returns the base object value.
 func loadsField(v ssa.Value, f *types.Var) (ssa.Value, bool) {
 	v = stripConv(v)
+	// a field of a struct VALUE (the element copy of `for _, e := range slice`)
+	if fv, ok := v.(*ssa.Field); ok && f != nil && fieldOfVal(fv) == f {
+		return fv.X, true
+	}
 	u, ok := v.(*ssa.UnOp)
 	if !ok || u.Op != token.MUL {
 		return nil, false
@@ -988,4 +992,14 @@ func (g *PCFG) holdsOnAllPathsOr(b *ssa.BasicBlock, sat func(Cond) bool, via fun
 		}
 	}
 	return true
+}
+
+// eqHolds / neHolds: the path condition says the two operands of the comparison are equal / differ,
+// whichever way the test is spelled (`a == b` taken, or `a != b` not taken after an early return).
+func eqHolds(b *ssa.BinOp, cd Cond) bool {
+	return b != nil && ((b.Op == token.EQL && cd.Sense) || (b.Op == token.NEQ && !cd.Sense))
+}
+
+func neHolds(b *ssa.BinOp, cd Cond) bool {
+	return b != nil && ((b.Op == token.EQL && !cd.Sense) || (b.Op == token.NEQ && cd.Sense))
 }
